@@ -86,6 +86,22 @@ static int bad_g12sSign(fc_ctx* c, int j, err_t* exp)
 	}
 	return 0;
 }
+
+/* comp (len octets, big-endian if big) += order (olen octets, little-endian), the non-canonical
+   encoding of the same residue; when the sum does not fit, comp becomes FF..FF (>= order as well) */
+static void add_order(octet* comp, size_t len, int big, const octet* order, size_t olen)
+{
+	unsigned carry = 0;
+	size_t i;
+	for (i = 0; i < len; ++i)
+	{
+		octet* d = big ? comp + len - 1 - i : comp + i;
+		unsigned v = (unsigned)*d + (i < olen ? order[i] : 0) + carry;
+		*d = (octet)v, carry = v >> 8;
+	}
+	if (carry)
+		memset(comp, 0xFF, len);
+}
 static void gen_g12sVerify(fc_ctx* c)
 {
 	octet* s;
@@ -110,6 +126,9 @@ static int bad_g12sVerify(fc_ctx* c, int j, err_t* exp)
 	case 2: ((octet*)c->a[12])[fc_below(c, (uint32_t)(2 * mo))] ^= 1; return 2;
 	case 3: memset(c->a[12], 0xFF, 2 * mo); return 2;
 	case 4: memset(c->a[3], 0, 2 * mo); return 1;
+	/* r or s replaced by the same residue plus the group order: g12s.h demands r, s < q */
+	case 5: add_order((octet*)c->a[3] + mo, mo, 1, ((g12s_params*)c->a[10])->q, mo); exp[1] = ERR_BAD_SIG; return 1;
+	case 6: add_order((octet*)c->a[3], mo, 1, ((g12s_params*)c->a[10])->q, mo); exp[1] = ERR_BAD_SIG; return 1;
 	}
 	return 0;
 }
@@ -261,6 +280,9 @@ static int bad_dstuVerify(fc_ctx* c, int j, err_t* exp)
 	case 1: ((octet*)c->a[3])[c->n[2] / 16 + fc_below(c, (uint32_t)c->n[11])] ^= 1; return 1;
 	case 2: ((octet*)c->a[12])[fc_below(c, (uint32_t)c->n[10])] ^= (octet)(1u << fc_below(c, 8)); return 1;
 	case 3: memset(c->a[3], 0, c->n[2] / 8); return 1;
+	/* r or s plus the order: same residue, but not below the order */
+	case 4: add_order((octet*)c->a[3], c->n[2] / 16, 0, ((dstu_params*)c->a[10])->n, c->n[11]); return 1;
+	case 5: add_order((octet*)c->a[3] + c->n[2] / 16, c->n[2] / 16, 0, ((dstu_params*)c->a[10])->n, c->n[11]); return 1;
 	}
 	return 0;
 }
